@@ -3,7 +3,7 @@
    Every theorem is closed by `exact`.  `chunks` is ANY way the OS may cut the output into reads
    (sizes 0, 1, around the preview limit, 8192, the cap, inside multi-byte characters). *)
 From RipV Require Import Base.Prelude Model.TaskLifecycle Model.Capture Proofs.CaptureProofs
-  Proofs.TaskLifecycleProofs Gen.PumpJoin.
+  Proofs.TaskLifecycleProofs Gen.PumpJoin Gen.TaskFailSites.
 
 (* background tasks: the log of a stream is byte for byte the first `cap` bytes written, whatever the
    chunking, cap 0 included; the counters say so *)
@@ -281,3 +281,51 @@ Theorem c17_lifecycle_subscribed : forall sched : list act,
   r_prefix_ok (recognise t) = true /\ (s_main s = MEnd <-> r_complete (recognise t) = true).
 Proof. exact lifecycle_language_sub. Qed.
 Print Assumptions c17_lifecycle_subscribed.
+
+(* ---------------- T1: the refusal / failure paths ----------------
+   `gen_fail_sites` (Gen/TaskFailSites.v) is REGENERATED from run_task / run_pipes_task / run_pty_task on every
+   run: one entry per `fail_task(..)` call — where it sits (before the spawn-frame emit / after it and before
+   Running / after Running) and whether the function returns right after it; `gen_fail_sites_ok` is the generated
+   obligation sites_wf gen_fail_sites = true.  `run_f sites` is the system in which a failure is the failure of
+   the k-th site (FFail k) instead of the abstract APostSpawnFail. *)
+Theorem c17_lifecycle_any_fail_sites : forall sites : list fail_site, sites_wf sites = true ->
+  forall sched : list act_f,
+  let s := run_f sites sched in
+  let t := trace s in
+  r_prefix_ok (recognise t) = true /\ (s_main s = MEnd <-> r_complete (recognise t) = true).
+Proof. exact lifecycle_language_sites. Qed.
+Print Assumptions c17_lifecycle_any_fail_sites.
+
+Theorem c17_lifecycle_fail_sites_code : forall sched : list act_f,
+  let s := run_f gen_fail_sites sched in
+  let t := trace s in
+  r_prefix_ok (recognise t) = true /\ (s_main s = MEnd <-> r_complete (recognise t) = true).
+Proof. exact (lifecycle_language_sites gen_fail_sites gen_fail_sites_ok). Qed.
+Print Assumptions c17_lifecycle_fail_sites_code.
+
+Theorem c17_terminal_is_last_fail_sites_code : forall sched more : list act_f,
+  s_main (run_f gen_fail_sites sched) = MEnd ->
+  trace (run_f gen_fail_sites (sched ++ more)) = trace (run_f gen_fail_sites sched).
+Proof. exact (terminal_is_last_sites gen_fail_sites gen_fail_sites_ok). Qed.
+Print Assumptions c17_terminal_is_last_fail_sites_code.
+
+(* a task that ended without ever reporting running was refused: its whole stream is Spawned . Status failed
+   (what POST /tasks with invalid args, a cwd outside the workspace, a PATH without bash or an uncreatable
+   artifacts dir produce on the real code: harness variants 2, 3, 9, 10) *)
+Theorem c17_refused_stream_shape : forall sched : list act,
+  s_main (run sched) = MEnd -> ~ In LRunning (trace (run sched)) -> trace (run sched) = [LSpawned; LStatus 4].
+Proof. exact refused_stream_shape. Qed.
+Print Assumptions c17_refused_stream_shape.
+
+(* necessity: a site list with ANY site that sits before the spawn frame (S12b), after Running, or does not
+   return has a schedule whose frames leave the language *)
+Theorem c17_bad_fail_site_refuted : forall sites : list fail_site, sites_wf sites = false ->
+  exists sched : list act_f, r_prefix_ok (recognise (trace (run_f sites sched))) = false.
+Proof. exact bad_site_refutes. Qed.
+Print Assumptions c17_bad_fail_site_refuted.
+
+Example c17_fail_sites_example :
+  sites_wf [{| fs_where := FAfterSpawn; fs_returns := true |}; {| fs_where := FAfterSpawn; fs_returns := true |}] = true
+  /\ trace (run_f [{| fs_where := FAfterSpawn; fs_returns := true |}] [FFail 0; FAct ASpawnFrame; FFail 0; FFail 0; FAct AStartRunning])
+     = [LSpawned; LStatus 4].
+Proof. exact sites_example. Qed.
